@@ -122,6 +122,13 @@ def run(ctx):
     from .c03 import check_footer
     check_footer(ctx, HR.HeaderTable(P, G), 'C04.8', select=lambda f: f.module.name == 'conversion' and f.name == 'write_headers' and 'Sgz' not in (f.cls.name if f.cls else ''))
     ctx.floor('C04.8', 2, 'write_headers of the two converters')
+    ctx.rule('C04.10', 'the reader looks for stored header array j at 512*(header blocks + data blocks) + j*stride, '
+             'with every quantity taken from the header slot of that role')
+    from .. import wiring as WR
+    ht = HR.HeaderTable(P, G)
+    roles = WR.footer_location(ctx, ht, 'C04.10')
+    WR.size_attr_uses(ctx, ht, 'C04.10', roles)
+    ctx.floor('C04.10', 7, 'wiring facts')
 
 
 def headers_dict_stores(P):
